@@ -204,6 +204,16 @@ def dag(rng, depth=None, width=2, na=2, rmax=4):
                 m["pk"][s][a] = [1]
     for a in range(na):
         m["next"][sink][a], m["rew"][sink][a], m["pk"][sink][a] = [sink], [0], [1]
+    # a trap in the first layer's first state: action 0 pays 3 at once and ends; action 1 pays nothing for two steps and
+    # then 20.  After ONE sweep the greedy choice is action 0, for the final values it is action 1 (gamma >= 1/2).
+    if depth >= 3:
+        t0, t1, t2 = layers[0][0], layers[1][0], layers[2][0]
+        for a in range(na):
+            m["next"][t0][a], m["rew"][t0][a] = [sink], [0]
+            m["next"][t1][a], m["rew"][t1][a] = [t2], [0]
+            m["next"][t2][a], m["rew"][t2][a] = [sink], [20]
+        m["rew"][t0][0] = [3]
+        m["next"][t0][1] = [t1]
     return m
 
 
